@@ -172,6 +172,22 @@ pub fn generate(tier: Tier, rng: &mut Rng) -> Vec<Case> {
             push(&mut out, &spec, "[t == u, t < u, t > u, t <= u, u - t == duration('0s')]", Some(ok("(list (bool 1) (bool 0) (bool 0) (bool 1) (bool 1))")), vec!["instant-compare"]);
         }
     }
+    // instants that differ by less than a millisecond (1 ns ... 999 999 ns), at equal and at
+    // different offsets: ordering and equality see every nanosecond
+    for k in 0..(if tier == Tier::Quick { 300 } else { 20_000 }) {
+        let a = civils[rng.below(civils.len() as u64) as usize];
+        let ua = a.utc_ns();
+        let delta: i128 = *rng.pick(&[1i128, 2, 999, 1_000, 1_001, 499_999, 999_999, 1_000_000, 1_000_001]) * if k % 2 == 0 { 1 } else { -1 };
+        let ub = ua + delta;
+        let off_b = if k % 3 == 0 { a.off } else { *rng.pick(&[0i64, 3600, -3600, 19800, 50400, -43200]) };
+        let (Some(ta), Some(tb)) = (ts_from_parts(ua, a.off), ts_from_parts(ub, off_b)) else { continue };
+        let mut spec = CtxSpec::default_ctx();
+        spec.vars.push(("a".into(), Value::Timestamp(ta)));
+        spec.vars.push(("b".into(), Value::Timestamp(tb)));
+        let bit = |x: bool| format!("(bool {})", x as u8);
+        push(&mut out, &spec, "[a < b, a <= b, a == b, a != b, a > b, a >= b]", Some(ok(&format!("(list {} {} {} {} {} {})", bit(ua < ub), bit(ua <= ub), bit(ua == ub), bit(ua != ub), bit(ua > ub), bit(ua >= ub)))), vec!["compare", "sub-millisecond"]);
+        push(&mut out, &spec, "[b - a, max(a, b) == (a < b ? b : a), min(a, b) == (a < b ? a : b)]", Some(ok(&format!("(list (dur {}) (bool 1) (bool 1))", ub - ua))), vec!["difference", "sub-millisecond"]);
+    }
     // ordering by instant across offsets, arithmetic with durations
     let n = if tier == Tier::Quick { 1500 } else { 150_000 };
     for _ in 0..n {
